@@ -24,9 +24,11 @@ GRAMMARS = {
                      {'start': ('Call', []), 'arg': ('Arg', []), 'mark': ('Mark', [])}),
     # builtin type names on rules that HAVE named elements (the value is still converted by the builtin, never wrapped in a class of that name)
     'builtin_named': ("start::Top: s=span f=[flag] ;\nspan::tuple: lo=/[0-9]/ hi=/[0-9]/ ;\nflag::bool: v='!' ;\n", {'start': ('Top', [])}),
+    # values converted by DIFFERENT numeric builtins that are equal across types (1 == 1.0) and flow through the same untyped rule: compared type-strictly
+    'builtin_mixed': ("start::Top: vals={val}+ $ ;\nval: real | num ;\nreal::float: /[0-9]+[.][0-9]/ ;\nnum::int: /[0-9]+/ ;\n", {'start': ('Top', [])}),
     'builtin': ("start::Num: n=num rest=[word] ;\nnum::int: /[0-9]+/ ;\nword::str: /[a-z]+/ ;\n", {'start': ('Num', [])}),
 }
-WARM = ['', 'a', '12', '12!', '1', '1 2', '12 !', 'f()', 'f(1)', 'f();', 'f()!;', 'a,b', '[a]', '[ab', '[]', 'a,', 'a1', 'a1b', 'ab', 'a b', 'a12', '1', 'ab!', '(a)', 'a-b', 'a-b-a', 'b', 'aa', '12a', '1a', 'a 1', '((a', 'a-a', 'a1 2', 'ab1']
+WARM = ['', 'a', '1 1.0', '1.0 1', '0 0.0', '1.0 0', '10 1', '12', '12!', '1', '1 2', '12 !', 'f()', 'f(1)', 'f();', 'f()!;', 'a,b', '[a]', '[ab', '[]', 'a,', 'a1', 'a1b', 'ab', 'a b', 'a12', '1', 'ab!', '(a)', 'a-b', 'a-b-a', 'b', 'aa', '12a', '1a', 'a 1', '((a', 'a-a', 'a1 2', 'ab1']
 
 
 def make_model(spec):
@@ -128,6 +130,17 @@ def make_model(spec):
             want = dict(plain_ast)
             want['s'] = list(tuple(plain_ast['s']))
             want['f'] = bool(plain_ast['f']) if plain_ast['f'] is not None else None
+        if spec['grammar'] == 'builtin_mixed':
+            want = {'vals': [(float(s) if '.' in s else int(s)) for s in plain_ast['vals']]}
+
+            def strict(v):
+                if isinstance(v, dict):
+                    return {k: strict(x) for k, x in v.items()}
+                if isinstance(v, (list, tuple)):
+                    return [strict(x) for x in v]
+                return [type(v).__name__, repr(v)]
+            if strict(plainify(m)) != strict(want):
+                return f'model-differs-from-ast (type-strict) {plainify(m)!r} != {want!r}'[:150]
         if plainify(m) != want:
             return f'model-differs-from-ast {plainify(m)!r} != {want!r}'[:150]
         nodes = all_nodes(m)
@@ -224,10 +237,13 @@ def plan(tier, seed):
     obs = []
     maxn = 3 if tier == 'quick' else 4
     for gn in GRAMMARS:
-        for n in range(0, maxn + 1):
+        for n in (range(0, maxn + 1) if gn != 'builtin_mixed' else (3, 5)):
             pre = ' and '.join(f'c{i} < 128' for i in range(n)) if gn == 'builtin' else ''
+            if gn == 'builtin_mixed':
+                # stated: digits 0/1, the decimal point and the space only (int()/float() realise every digit; the interesting texts need 5 characters)
+                pre = ' and '.join((f'c{i} == 32' if (n == 5 and i == 1) else f'(c{i} == 48 or c{i} == 49 or c{i} == 46 or c{i} == 32)') for i in range(n))
             obs.append(Ob(name=f'{gn}_L{n}', factory='vt.props.c07:make_model', spec={'grammar': gn, 'n': n}, params=[(f'c{i}', 0, UNI) for i in range(n)],
-                          budget={0: 40, 1: 40, 2: 90, 3: 400, 4: 2000}[n], group=gn, extra_pre=pre, require_tags=('ok',) if (n == 2 and gn not in ('override', 'falsy_values')) or (n == 3 and gn == 'falsy_values') else ()))
+                          budget={0: 40, 1: 40, 2: 90, 3: 400, 4: 2000, 5: 600}[n], group=gn, extra_pre=pre, require_tags=('ok',) if (n == 2 and gn not in ('override', 'falsy_values')) or (n == 3 and gn == 'falsy_values') else ()))
     return {
         'obligations': obs,
         'native': native_checks,
